@@ -142,6 +142,23 @@ func cmdCheck(args []string) int {
 	p := loadAll(*repo)
 	known := loadKnown(filepath.Join(*verifDir, "known_findings.json"))
 	units := p.unitsFor(*prop)
+	sweepBase := loadSweepBaseline(filepath.Join(*verifDir, "sweep_baseline.json"))
+	sweepFns := map[*ssa.Function]bool{}
+	if len(cfg.SweepPkgs) > 0 {
+		have := map[*ssa.Function]bool{}
+		for _, f := range units {
+			have[f] = true
+		}
+		for _, f := range p.sweepUnits(cfg.SweepPkgs) {
+			if !have[f] {
+				units = append(units, f)
+				sweepFns[f] = true
+			}
+		}
+	}
+	writeBaseline := os.Getenv("KVC_WRITE_SWEEP_BASELINE") != ""
+	newBaseline := map[string]string{}
+	unclaimedHit := 0
 	timeout := 20
 	if *tier == "thorough" {
 		timeout = 120
@@ -248,7 +265,16 @@ func cmdCheck(args []string) int {
 		for _, e := range r.SpecErrs {
 			report(shortPkg(r.Key)+"/contract", nil, "contract-error", e, "", r.Key)
 		}
+		anyFailed := false
+		for _, or := range r.Results {
+			if or.Status != "proved" {
+				anyFailed = true
+			}
+		}
 		for _, b := range r.SmokeBad {
+			if anyFailed && strings.HasSuffix(b, "/smoke/exit") {
+				continue // unreachable exit is a consequence of an assertion that already failed in this function
+			}
 			report(shortPkg(r.Key)+"/"+b, nil, "vacuous", "precondition/invariant contradictory or exit unreachable: proof would be vacuous", "", r.Key)
 		}
 		for _, or := range r.Results {
@@ -266,6 +292,15 @@ func cmdCheck(args []string) int {
 				if !isKnown {
 					discharged++
 				}
+			} else if isKnown {
+				report(id, or.Ob, or.Status, or.Detail, or.Model, r.Key)
+			} else if _, un := sweepBase[*prop][id]; un && !writeBaseline {
+				// not claimed: needs a precondition nobody wrote (zero-annotation sweep)
+				obligations--
+				unclaimedHit++
+			} else if writeBaseline && sweepFns[r.Fn] {
+				obligations--
+				newBaseline[id] = "needs contract: " + or.Status + " on the unchanged tree without annotations (" + truncate(or.Ob.Text, 80) + ")"
 			} else {
 				report(id, or.Ob, or.Status, or.Detail, or.Model, r.Key)
 			}
@@ -282,6 +317,25 @@ func cmdCheck(args []string) int {
 			report("lemma::"+lr.Ob.Name, lr.Ob, lr.Status, lr.Detail, lr.Model, "")
 		}
 		samples = append(samples, evSample{"lemma::" + lr.Ob.Name, "lemma", truncate(lr.Ob.Text, 200), lr.Status, lr.Solver, round3(lr.Seconds), lr.SMTSize, lr.Ob.Pos})
+	}
+	for _, ae := range p.anchorErrs {
+		tagged := ae.fc.Safety && hasTag(ae.fc.SafetyTags, *prop)
+		for _, c := range ae.fc.Clauses {
+			if hasTag(c.Tags, *prop) {
+				tagged = true
+			}
+		}
+		for _, lc := range ae.fc.Loops {
+			for _, c := range lc.Clauses {
+				if hasTag(c.Tags, *prop) {
+					tagged = true
+				}
+			}
+		}
+		if tagged || len(cfg.SweepPkgs) > 0 {
+			obligations++
+			report(shortPkg(ae.fc.Pkg)+"::"+ae.fc.Key+"/contract-anchor", nil, "anchor-lost", ae.msg, "", "")
+		}
 	}
 	ruleRes := p.checkRules(*prop)
 	ruleOK := 0
@@ -360,6 +414,19 @@ func cmdCheck(args []string) int {
 		// keep the evidence file schema-valid even when nothing was generated
 		ev["coverage"].(map[string]interface{})["obligations"] = 0
 	}
+	if writeBaseline {
+		for k, v := range sweepBase[*prop] {
+			if _, ok := newBaseline[k]; !ok {
+				_ = v
+			}
+		}
+		sweepBase[*prop] = newBaseline
+		bd, _ := json.MarshalIndent(sweepBase, "", " ")
+		os.WriteFile(filepath.Join(*verifDir, "sweep_baseline.json"), bd, 0644)
+		fmt.Printf("wrote sweep baseline: %d unclaimed obligations\n", len(newBaseline))
+	}
+	ev["coverage"].(map[string]interface{})["sweep_functions"] = len(sweepFns)
+	ev["coverage"].(map[string]interface{})["sweep_unclaimed_needs_contract"] = unclaimedHit
 	os.MkdirAll(filepath.Join(*verifDir, "evidence"), 0755)
 	data, _ := json.MarshalIndent(ev, "", " ")
 	os.WriteFile(filepath.Join(*verifDir, "evidence", *prop+".json"), data, 0644)
